@@ -412,7 +412,7 @@ func (x *runner) finish() {
 // thorough: additionally exhaustive sequences to a depth bound and long growth chains.
 func Run(o *hx.Out, g *hx.Rng, tier string) {
 	o.Res.Rule = "a case is one op sequence from one start layout (capacity, head offset, fill); distinct = distinct hash of the full op string; non-trivial = at least one element stored"
-	nseq, seqlen := 320, 120
+	nseq, seqlen := 400, 120
 	if tier == "thorough" {
 		nseq, seqlen = 4000, 300
 	}
